@@ -175,10 +175,22 @@ def run_scenario(sc):
                     lim = k.limits
         lims.append([fstr(lim[0]), fstr(lim[1])])
     ev["limits"] = lims
+    # the mesh the mean is taken over must itself be the documented one: every requested distribution and what
+    # get_mesh returned for it is handed to the weights specification (WeightsTrace, shared with C02)
+    for p, (v0, d, wts), lim in zip(P.call_parameters[2:2 + P.npars], kmesh, lims):
+        if p.polydisperse and pars.get(p.name + "_pd_n", 0) and pars.get(p.name + "_pd", 0.0) and p.type != "orientation":
+            emit({"tid": sc["tid"], "ev": "GetW", "model": sc["model"], "dim": sc["dim"],
+                  "q": {"type": str(pars.get(p.name + "_pd_type", "gaussian")), "n": int(pars[p.name + "_pd_n"]),
+                        "width": fstr(pars[p.name + "_pd"]), "nsigma": fstr(pars.get(p.name + "_pd_nsigma", 3.0)),
+                        "value": fstr(pars.get(p.name, p.default)), "lb": lim[0], "ub": lim[1], "relative": True},
+                  "res": {"raised": False, "error": "", "x": fvec(d), "w": fvec(wts), "value": fstr(v0)}})
     ev["lens"] = [len(w) for _, _, w in kmesh]
     res = {"refused": False, "raised": False, "error": "", "Iq": [], "F1": [], "F2": [],
            "reff": "0.0", "vshell": "0.0", "ratio": "0.0"}
     try:
+        # the kernel object has been used before (as in a fit): one ordinary call with the defaults first
+        call_kernel(kernel, {k: float(v) for k, v in P.defaults.items() if not k.startswith("up_")
+                             and not k.endswith(("_M0", "_mtheta", "_mphi"))}, cutoff=0.0)
         Iq = call_kernel(kernel, dict(pars), cutoff=cutoff)
         fq_pars = dict(pars)
         fq_pars["radius_effective_mode"] = mode
